@@ -8,3 +8,10 @@ pub fn dispatch(ctx: &Ctx, rep: &mut Report) {
         other => rep.harness_error(format!("no engine for {}", other)),
     }
 }
+
+pub fn dump(ctx: &Ctx, n: u64, path: &str) {
+    match ctx.prop.as_str() {
+        "C01" | "C02" => bytes_in::dump_corpus(ctx, n, path),
+        _ => {}
+    }
+}
